@@ -18,7 +18,7 @@ TIMEOUT = {'quick': 1200, 'thorough': 7200}
 MUST_HIT = ['EarlierObject.rechecked', 'Snap.roundtrip', 'Snap.fixed-point', 'route.serialize_database', 'route.split-texts',
             'route.persist_database', 'route.persist-split', 'route.dispatch', 'route.schema-less',
             'build.schema-first', 'build.instances-first', 'build.formalize-last',
-            'Population.self-links', 'Population.permuted-compound-keys']
+            'Population.self-links', 'Population.permuted-compound-keys', 'Population.zero-valued-key']
 MUST_REACH = ['xtuml/persist.py:serialize_value', 'xtuml/persist.py:serialize_instance',
               'xtuml/persist.py:serialize_association', 'xtuml/persist.py:serialize_unique_identifiers',
               'xtuml/persist.py:persist_instances', 'xtuml/persist.py:persist_schema',
@@ -253,6 +253,7 @@ def run(ctx):
                 ctx.violation(e.key, e.what, case=case)
         ctx.hit('Population.self-links', sqlgen.SELF_LINKS[0])
         ctx.hit('Population.permuted-compound-keys', sqlgen.PERMUTED_KEYS[0])
+        ctx.hit('Population.zero-valued-key', sqlgen.ZERO_KEYS[0])
         for k, v in sqlgen.SHAPES.items():
             ctx.hit('Schema.' + k, v)
     finally:
